@@ -19,6 +19,8 @@ InitState == [heap |-> EmptyHeap, obs |-> NoObs,
               stored |-> NoObs,     \* <<cache object, key>> -> identity of the cached map
               nb |-> 0,             \* trees built so far (identities of CachedSource nodes)
               tc |-> NoObs,         \* TreeC: <<cache id, columns, final>> -> what that cache stores
+              cm |-> NoObs,         \* concurrent programs: <<twin register, columns>> -> first map() answer on that cache
+              inconc |-> FALSE,     \* inside a concurrent program
               ix |-> NoObs]         \* IndexM: register holding a ReplaceSource -> [idx, flag] of its lazily sorted index
 
 Put(f, k, v) == [x \in DOMAIN f \cup {k} |-> IF x = k THEN v ELSE f[x]]
@@ -66,7 +68,7 @@ ForgetEq(eqs, reg) == [k \in {x \in DOMAIN eqs : x[1] # reg /\ x[2] # reg} |-> e
 (* the cache-aware tree model follows a call: sequential records on trees    *)
 (* with a CachedSource somewhere, inside the models' domain                  *)
 TreeCApplies(r, st) ==
-  /\ r.op \in {"map", "stream"} /\ "tid" \notin DOMAIN r
+  /\ r.op \in {"map", "stream"} /\ "tid" \notin DOMAIN r /\ "after" \notin DOMAIN r
   /\ LET t == st.heap[r.r]
      IN "cached" \in Kinds(t) /\ TreeCDomain(t) /\ SharedNamesAgreeInTree(t)
 
@@ -144,7 +146,24 @@ NextState0(r, st) ==
                              ELSE @]
     [] OTHER -> st
 
-NextState(r, st) == [NextState0(r, st) EXCEPT !.ix = IxNext(r, st)]
+(* map() of a CachedSource returns the value its cache holds for the option  *)
+(* set - a hit returns it, a miss stores its own or finds another thread's - *)
+(* and that value is never replaced: so all answers on one cache, from any   *)
+(* thread and from the sequential calls after the threads have finished, are *)
+(* one value.                                                                *)
+CmApplies(r, st) ==
+  /\ st.inconc /\ r.op = "map" /\ Ok(r) /\ r.r \in DOMAIN st.ref
+  /\ st.heap[r.r] # Nil /\ st.heap[r.r].k = "cached"
+CmKey(r, st) == <<st.ref[r.r], r.columns>>
+CmNext(r, st) ==
+  IF r.op \in {"begin", "conc_begin"} THEN NoObs
+  ELSE IF CmApplies(r, st) /\ CmKey(r, st) \notin DOMAIN st.cm THEN Put(st.cm, CmKey(r, st), r.out.map)
+  ELSE st.cm
+
+NextState(r, st) ==
+  [NextState0(r, st) EXCEPT !.ix = IxNext(r, st), !.cm = CmNext(r, st),
+                            !.inconc = IF r.op = "conc_begin" THEN TRUE
+                                       ELSE IF r.op = "begin" THEN FALSE ELSE st.inconc]
 
 -----------------------------------------------------------------------------
 (* helpers over stream records                                              *)
@@ -669,7 +688,12 @@ C18Checks(r, st) ==
     [] r.op = "conc_end" -> {<<"C18", "no_deadlock">>, <<"DRIFT", "schedule_replayed">>}
     \* refusal probe: a thread released although Conc says it must wait for a shard lock
     [] r.op = "probe" -> {<<"DRIFT", "lock_refuses_as_modelled">>}
+    [] r.op = "map" /\ "tid" \notin DOMAIN r ->
+         IF CmApplies(r, st) /\ CmKey(r, st) \in DOMAIN st.cm
+           THEN {<<"C18", "map_answers_are_the_cached_value">>} ELSE {}
     [] "tid" \in DOMAIN r /\ "r" \in DOMAIN r /\ r.r \in DOMAIN st.ref ->
+         (IF CmApplies(r, st) /\ CmKey(r, st) \in DOMAIN st.cm
+            THEN {<<"C18", "map_answers_are_the_cached_value">>} ELSE {}) \cup
          IF \/ r.op \in {"source", "buffer", "size"} /\ HasPure(r, st, <<"source">>)
             \/ r.op = "map" /\ HasPure(r, st, <<"map", r.columns>>)
             \/ r.op = "stream" /\ ~r.final /\ HasPure(r, st, <<"stream", r.columns, FALSE>>)
@@ -734,7 +758,7 @@ Checks(r, st) ==
                                                   ELSE <<"C08", "stream_lines">>)}
                          ELSE {})
       [] r.op = "map" ->
-           (IF "tid" \notin DOMAIN r /\ TreeCDomain(TreeOf(r, st)) /\ SharedNamesAgreeInTree(TreeOf(r, st))
+           (IF "tid" \notin DOMAIN r /\ "after" \notin DOMAIN r /\ TreeCDomain(TreeOf(r, st)) /\ SharedNamesAgreeInTree(TreeOf(r, st))
               THEN {<<"DRIFT", "tree_map_follows_TreeC">>} ELSE {}) \cup
            LET dom == AsciiConsistent(TreeOf(r, st))
                seen == <<r.r, "stream", r.columns, FALSE>> \in DOMAIN st.obs
@@ -896,6 +920,7 @@ Holds(c, r, st) ==
     [] c = <<"C18", "cached_value_never_replaced">> -> st.stored[<<r.obj, r.key>>] = r.ident
     [] c = <<"C19", "cached_map_borrow_stays_valid">> -> st.stored[<<r.obj, r.key>>] = r.ident
     [] c = <<"C18", "no_deadlock">> -> r.outcome # "deadlock"
+    [] c = <<"C18", "map_answers_are_the_cached_value">> -> r.out.map = st.cm[CmKey(r, st)]
     [] c = <<"DRIFT", "full_encoder_follows_EncM">> -> r.out.m = EncodeFullM(SegsOf(r.segs))
     [] c = <<"DRIFT", "lines_encoder_follows_EncM">> ->
          LET m == EncodeLinesM(SegsOf(r.segs))
